@@ -2,7 +2,7 @@
 """Writes /verif/MANIFEST.json (kept in a script so that the per-property texts live in one place)."""
 import json, os
 V = os.path.dirname(os.path.dirname(os.path.abspath(__file__)))
-TECH = 'Lean 4 theorems over a hand-written model + differential correspondence check against the crate'
+TECH = 'Lean 4 theorems over a hand-written model; tie to the code = differential correspondence check against the crate + constants, enum tables and the straight-line record readers/writers/framing functions regenerated from /repo/src by translators and compared with the model by kernel-checked theorems (Props/Tie.lean, Props/TieSteps.lean)'
 P = {
  'C01': ('all nine decode entry points never take a panic outcome nor exhaust loop fuel, for every byte string (Safe.decodeX_noPanic/noFuel); clause "returned values can be cloned/compared/formatted" is exercised under catch_unwind, not proved (partial)', '7.C01'),
  'C02': ('RT.roundtrip: for every byte string the model decoder accepts with uncompressed size <= 65535, encoding succeeds and decodes to the same message up to ASCII case of names (composition of C03 soundness, WF of decoded values, C08 totality, C05 encoder=>grammar, C04 completeness); name-level round trip after any encoder history; rt.dns stream runs the fuzz-target contract on the crate field by field', '7a row C02'),
@@ -34,7 +34,7 @@ for pid in sorted(P):
         'replay_cmd_template': './check %s --replay {path}' % pid,
         'engine': 'lean4+correspondence',
         'level_claimed': {'category': 'proof', 'text': text, 'design_ref': 'DESIGN.md section ' + ref},
-        'level_note': 'Trusted: Lean 4.33 kernel; axioms propext, Classical.choice, Quot.sound only (audited per theorem on every run); the theorems are about the hand-written model lean/DnsVerif/Model/*, tied to /repo on every run by the correspondence stream (differential, bounded by its generators) and by constants/enum tables regenerated from /repo/src (Props/Tie.lean); Spec/* statements and IANA tables transcribed by hand.',
+        'level_note': 'Trusted: Lean 4.33 kernel; axioms propext, Classical.choice, Quot.sound only (audited per theorem on every run); the theorems are about the hand-written model lean/DnsVerif/Model/*, tied to /repo on every run by the correspondence stream (differential, bounded by its generators) and by constants/enum tables (Props/Tie.lean) and the record readers/writers, dispatch tables and framing functions (Props/TieSteps.lean, tools/extract_steps.py) regenerated from /repo/src on every run; Spec/* statements and IANA tables transcribed by hand.',
         'technique': TECH,
     })
 m = {
